@@ -62,6 +62,9 @@ def run(payload):
             zen, azi = gen_angles(rng, spec['media'] is not None)
             pwr = rng.choice([None, None, 100.0, 10 ** rng.uniform(-2, 3)])
             dist = rng.choice([0, 0, 1000.0, 10 ** rng.uniform(0, 5)])
+            if rng.random() < 0.5:
+                # an earlier request with other angles of the same counts on the same object
+                far(m, [zen[0] + 7.0, zen[1] * 0.5, zen[2]], [azi[0] + 11.0, azi[1], azi[2]], None, 0)
             rows = far(m, zen, azi, pwr, dist)
             r['obs'] = dict(w=hx(m.w), f=hx(m.f), power=hx(m.power), ff_power=hx(m.ff_power), dist=hx(dist),
                             pulses=[pulse_facts(p) for p in m.pulses], cur=[hxc(v) for v in m.current],
@@ -235,23 +238,33 @@ def c11_oracle(payload):
                 mm = gen.build(sp); mm.compute(); mm.compute_far_field(Angle(*zen), Angle(*azi))
                 return np.array(mm.far_field.gain)
             g = pattern(spec)
+            # the pattern of a request does not depend on the requests made before it on the same object
+            mm = gen.build(spec); mm.compute()
+            mm.compute_far_field(Angle(zen[0] + 30.0, 8.0, zen[2]), Angle(*azi))
+            mm.compute_far_field(Angle(*zen), Angle(azi[0] + 40.0, azi[1], azi[2]))
+            mm.compute_far_field(Angle(*zen), Angle(*azi))
+            gh = np.array(mm.far_field.gain)
+            if _mx(np.abs(gh[g > -100] - g[g > -100])) > 1e-9:
+                bad.append('far field after other far-field requests on the same object differs from the first request of a fresh object by %.3g dB'
+                           % _mx(np.abs(gh[g > -100] - g[g > -100])))
             # split a medium into two adjacent pieces (no radials)
             med = spec['media']
             if not med[0].get('nradials'):
-                k = rng.randrange(len(med))
-                s2 = copy.deepcopy(spec)
-                piece = copy.deepcopy(med[k])
-                hi = med[k]['coord'] if med[k].get('coord') is not None else 1e6
-                lo = med[k - 1]['coord'] if k > 0 else 0.0
-                piece['coord'] = lo + (hi - lo) * rng.uniform(0.1, 0.9)
-                s2['media'].insert(k, piece)
-                if k == 0 and len(s2['media']) > 1:
-                    s2['media'][1]['height'] = s2['media'][1].get('height', 0.0) if False else med[0].get('height', 0.0)
-                    s2['media'][0]['height'] = 0.0
-                g2 = pattern(s2)
-                msk = g > -100
-                if _mx(np.abs(g2[msk] - g[msk])) > 1e-6:
-                    bad.append('splitting medium %d changes the pattern by %.3g dB' % (k, _mx(np.abs(g2[msk] - g[msk]))))
+                lam_ = 299.8 / spec['f']
+                for k in (range(len(med)) if case.get('fixed_sources') else [rng.randrange(len(med))]):
+                    s2 = copy.deepcopy(spec)
+                    piece = copy.deepcopy(med[k])
+                    lo = med[k - 1]['coord'] if k > 0 else 0.0
+                    hi = med[k]['coord'] if med[k].get('coord') is not None else lo + rng.choice([1e6, 0.5 * lam_])
+                    piece['coord'] = lo + (hi - lo) * rng.uniform(0.1, 0.9)
+                    s2['media'].insert(k, piece)
+                    if k == 0 and len(s2['media']) > 1:
+                        s2['media'][1]['height'] = med[0].get('height', 0.0)
+                        s2['media'][0]['height'] = 0.0
+                    g2 = pattern(s2)
+                    msk = g > -100
+                    if _mx(np.abs(g2[msk] - g[msk])) > 1e-6:
+                        bad.append('splitting medium %d changes the pattern by %.3g dB' % (k, _mx(np.abs(g2[msk] - g[msk]))))
             # a further medium beyond every reflection point: the boundary is put just
             # outside the largest TRUE specular distance (computed here from geometry),
             # for a linear and for a circular boundary
